@@ -460,6 +460,7 @@ PROPS["C19"] = {
         "Lace.C19.runSeq_reset_eq_map",
         "Lace.C19.watch_recheck_eq_check",
         "Lace.C19.stale_table_matters",
+        "Lace.C19.watch_session_eq_checks",
     ],
     "compare": cmp_default,
     "classify": seq_classify,
